@@ -3,7 +3,7 @@ import numpy as np
 from ..core import pmap
 from .. import explore as EXP
 from .. import e1
-from ..nets import ssa_networks, reachable
+from ..nets import ssa_networks, big_networks, reachable
 from ..ref import ssa as RS
 
 GRIDS = {
@@ -11,6 +11,8 @@ GRIDS = {
     'u5': [0.0, 0.25, 0.5, 0.75, 1.0],
     'nu4': [0.0, 0.25, 1.0, 1.25],
     'u2': [0.0, 0.5],
+    'u11': [0.125 * i for i in range(11)],
+    'fine33': [0.03125 * i for i in range(33)],
 }
 
 
@@ -35,6 +37,18 @@ def configs(tier):
                         out.append(dict(spec=sp, grid=g, safe=safe, bound=2, kind='run', route='entry'))
             for safe in (False, True):
                 out.append(dict(spec=sp, grid='u3', safe=safe, bound=2, kind='bfs'))
+    # larger than the small alphabets: counts >= 50, 7 species / 8-10 channels, 11 and 33 time points
+    for sp in big_networks():
+        many = len(sp['reactions']) >= 8
+        for g in (['u5', 'u11'] if tier == 'quick' else ['u3', 'u11', 'fine33']):
+            if tier == 'quick' and g == 'u5' and not many:
+                continue
+            # the many-channel networks are explored to bound 2 on the short grid and to bound 1 on the long ones
+            b = 1 if (many and g != 'u5' and (tier == 'quick' or g == 'fine33')) else 2
+            for safe in (False, True):
+                out.append(dict(spec=sp, grid=g, safe=safe, bound=b, kind='run', route='sim'))
+                if tier == 'thorough' or safe:
+                    out.append(dict(spec=sp, grid=g, safe=safe, bound=b, kind='run', route='entry'))
     return out
 
 
@@ -110,7 +124,7 @@ def run(ctx):
                 'reference direct-method sampler is explored to the cost bound (every waiting-time draw: cross / just after '
                 'now / mid / just before the next grid time / far; every reaction draw: middle and both edges of every live '
                 'bucket) and every complete trace is replayed on SSASimulator (directly and through py_simulate_model(stochastic=True)) under the scripted stream; plus the same '
-                'exploration (bound 2) started from every reachable state, on and between grid times. states = distinct '
+                'exploration (bound 2) started from every reachable state, on and between grid times; plus (bound 2) six larger networks (counts 50-200, seven species / eight channels, ten channels) on grids of 11 (thorough: 3, 11, 33) points. states = distinct '
                 '(state, grid index) pairs visited by the reference; transitions = draws; a configuration is non-trivial '
                 'when its traces have more than one distinct outcome.')
     ctx.assumptions = ['uniform -> (waiting time, reaction) mapping of the direct method: tau = -ln(u)/Lambda, '
